@@ -100,6 +100,49 @@ pub fn handle(req: &Value) -> Value {
             }
             json!({"results": out})
         }
+        // the same strings parsed from several threads at once: every thread must get the single-threaded verdict for every string
+        "batch_mt" => {
+            let ty = jstr(req, "type").to_string();
+            let items: Vec<String> = jarr(req, "items").iter().map(|x| String::from_utf8(unhex(x.as_str().unwrap())).expect("utf8")).collect();
+            fn accepts(ty: &str, s: &str) -> bool {
+                match ty {
+                    "layer_name" => s.parse::<LayerName>().is_ok(),
+                    "process_type" => s.parse::<ProcessType>().is_ok(),
+                    "buildpack_id" => s.parse::<BuildpackId>().is_ok(),
+                    "exec_key" => s.parse::<ExecDProgramOutputKey>().is_ok(),
+                    "version" => BuildpackVersion::try_from(s.to_string()).is_ok(),
+                    _ => BuildpackApi::try_from(s.to_string()).is_ok(),
+                }
+            }
+            let single: Vec<bool> = items.iter().map(|s| accepts(&ty, s)).collect();
+            let threads = req["threads"].as_u64().unwrap_or(8) as usize;
+            let rounds = req["rounds"].as_u64().unwrap_or(3) as usize;
+            let mut diffs: Vec<Value> = Vec::new();
+            std::thread::scope(|sc| {
+                let hs: Vec<_> = (0..threads)
+                    .map(|t| {
+                        let (items, single, ty) = (&items, &single, &ty);
+                        sc.spawn(move || {
+                            let mut bad = Vec::new();
+                            for _ in 0..rounds {
+                                for (i, s) in items.iter().enumerate() {
+                                    if accepts(ty, s) != single[i] && bad.len() < 3 {
+                                        bad.push((t, i));
+                                    }
+                                }
+                            }
+                            bad
+                        })
+                    })
+                    .collect();
+                for h in hs {
+                    for (t, i) in h.join().unwrap() {
+                        diffs.push(json!({"thread": t, "input": hex(items[i].as_bytes()), "single_threaded": single[i]}));
+                    }
+                }
+            });
+            json!({"single": single, "diffs": diffs, "parses": threads * rounds * items.len()})
+        }
         // Display of constructed versions: triples -> display -> parse back
         "version_display" => {
             let mut out = Vec::new();
